@@ -99,6 +99,68 @@ CLAIMED = {
             "Trusted: TLC, the controller (one logical thread at a time => event order = execution order), the textual mutex retyping, Go's race detector. "
             "Interleavings inside a critical section are not schedulable.",
             "DESIGN.md 4.7, 5.3, 6.2, 7/C07"),
+    "C04": ("model_checking",
+            "TLC model checking of Config.tla (two independent formulations agree on all bounded atom configurations) + TLC-enumerated and seeded configurations run through the real NewMiddleware/Reconfigure, judged by TLC (TraceConfig.tla, NoProhibitionViolated)",
+            "Model level: over all origin lists of <= 2 atoms x 32 switch combinations, all Methods x RequestHeaders x ResponseHeaders lists of <= 2 atoms x "
+            "Credentialed and boundary integers, a configuration has no expected violation exactly when it violates no documented prohibition. Code "
+            "level: those configurations (sampled in the quick tier), every atom spelling in list positions 1-3 and seeded random mixes go through "
+            "NewMiddleware and Reconfigure (passthrough and configured); TLC requires NoProhibitionViolated for every accepted one and a nil "
+            "*Middleware with every error.",
+            "Trusted: TLC, the atom table's classification of 202 concrete strings (insecure? public suffix? defect class).",
+            "DESIGN.md 4.5, 7/C04"),
+    "C05": ("model_checking",
+            "TLC trace validation (TraceConfig.tla): accepted <=> Violations = {} and the support of the errors yielded by cfgerrors.All equals the documented violations",
+            "Same configurations as C04; for every call TLC computes Violations(cfg) from the atom attributes and requires: accepted iff empty; every yielded "
+            "error a non-nil pointer to an exported cfgerrors type with a 'cors: ' message; every expected violation reported with type, value as "
+            "supplied, reason / type / bounds; no error without a violation.",
+            "Trusted: TLC, the atom table, the Go type switch that projects errors. Supports are compared, not multiplicities; a malformed pattern's Reason may be invalid or prohibited.",
+            "DESIGN.md 4.5, 7/C05"),
+    "C13": ("model_checking",
+            "TLC model checking of the component grammar (Pattern.tla) + every TLC-enumerated valid combination and single-defect mutation built byte for byte and judged by TLC on the real outcome (TracePattern.tla)",
+            "Model level: every generated valid combination satisfies Valid, every single-defect mutation falsifies it. Code level: 38.5k candidates "
+            "(all length maxima at once: 64-byte scheme, 253-byte domain + trailing dot, 5-digit port) are built from components and given to "
+            "NewMiddleware; accepted wildcard-free ones are presented verbatim as Origin; TLC requires accepted = Valid for judged "
+            "candidates, an UnacceptableOriginPatternError naming the string otherwise, and self-match.",
+            "Trusted: TLC, the Go builder (component -> bytes). Grey zones (https + IP, `*.` + 251-byte base + trailing dot, IP + trailing dot, `_`, hyphens in positions 3-4, upper-case scheme) are not judged.",
+            "DESIGN.md 4.4, 7/C13"),
+    "C14": ("model_checking",
+            "TLC model checking: windowed scanner model == declarative meaning on all bounded inputs (Acrh.tla) + replay of the whole bounded universe through the public API + TLC trace validation of seeded inputs around the real cut-offs",
+            "Model level: Scan = Approved, AllInBounds, Sound, BrowserComplete on every name set over {a,b,ab,ba} x every sequence of field lines over "
+            "{a,b,',',SP,TAB} within the bound; three twins rejected. Code level: every state of that universe is replayed through a real preflight and "
+            "compared with ApprovedWith(1,16) computed by TLC; seeded lists around longest-name + padding + comma, 0-3 OWS bytes, 0-20 empties, 1-4 "
+            "lines are judged by Acrh!Approved in TLC.",
+            "Trusted: TLC, byte-order-preserving concretisation (a < b). Reading: a whitespace-only element of 2 bytes is an empty element.",
+            "DESIGN.md 4.3, 7/C14"),
+    "C15": ("model_checking",
+            "TLC model checking of order/multiplicity irrelevance on Radix.tla + TLC trace validation (TraceLifecycle.tla): twins of a configuration share one abstract state and must be observed identically",
+            "Model level: Refines on every insertion sequence (every order and multiplicity). Code level: seeded accepted configurations x {independently "
+            "re-spelled twins (order, duplicates, header-name case, normalisable method spellings, safelisted extras, */Authorization order) + every "
+            "permutation of each list field (<= 24 per field)}; all twins observed in both debug modes; TLC requires one fingerprint per state.",
+            "Trusted: TLC, fingerprints; twins are equivalent by construction of Sem.spell. Config() values are deliberately not compared.",
+            "DESIGN.md 4.5, 7/C15"),
+    "C17": ("exploration",
+            "model-guided exploration: TLC proves the modelled scanners' index arithmetic in bounds on bounded inputs; the union of all generators (extreme sizes, junk, arbitrary Config values) runs under recover and TLC's monitor has no action for a Panic event",
+            "Absence of panics is observed, not proved. The specification contributes AllInBounds on Acrh.tla and steers the generators to boundaries; "
+            "the check runs 1 byte..1 MiB / 1..10^5 elements or lines in every CORS request header under 14 configurations x debug x OPTIONS/GET, 3000 "
+            "arbitrary Config values through NewMiddleware/Reconfigure/Config/All, the junk and structured universes (nil / zero-length header "
+            "slices) and every atom spelling.",
+            "Trusted: recover() around every call. Go memory safety beyond panics is out of scope.",
+            "DESIGN.md 7/C17, 9"),
+    "C18": ("exploration",
+            "cost-annotated trace validation: allocations per request measured on a size ladder per Respond path; TLC (TraceCost.tla) requires a size-free budget per path",
+            "The weakest use of the technique (DESIGN.md section 9): TLA+ says nothing about Go's allocator. The specification supplies the path structure "
+            "and a size-free budget; testing.AllocsPerRun measures 5 configuration kinds x debug x method x field x 7 value shapes x sizes 1..10^4 "
+            "(thorough: 10^5 / 1 MiB); TLC requires allocs(size) <= allocs(smallest) + 1 and <= 12 per path.",
+            "Trusted: testing.AllocsPerRun with a reusable writer (measured 0-3 allocations on every path of the unchanged tree, stable).",
+            "DESIGN.md 7/C18, 9"),
+    "C19": ("model_checking",
+            "TLC model checking of the push-iterator model on all join trees up to a node bound x all break positions (ErrTree.tla) + every such tree rebuilt with the real errors.Join and iterated with the real cfgerrors.All, validated by TLC",
+            "Model level: Correct for every tree with <= 9 (thorough 11) nodes and every break position; the inner-loop-only-exit twin is rejected. Code "
+            "level: every tree x break position with real errors.Join / cfgerrors.All (direct call with counting consumer + range loop); TLC requires "
+            "the first k leaves, no late yield, no panic. Second sentence: on the C04/C05 configuration traces count(All(err)) = leaves found by "
+            "an own walk of Unwrap() []error >= distinct expected violations.",
+            "Trusted: TLC, the Go tree builder.",
+            "DESIGN.md 4.8, 7/C19"),
 }
 
 NOT_YET = "check not built yet in this round (planned, see DESIGN.md section 7)"
